@@ -149,7 +149,7 @@ CLAIMS = {
    text="AnchorPolicy.tla transcribes the rule trees of the calendar-based, key-based, publications-file, user-publication and general policies (policy.c) as data, gives "
         "every leaf rule a meaning over an abstract environment (signature with/without calendar chain, publication or authentication record; internal consistency; "
         "user publication time/hash; publications-file entries; extending allowed; 10 extender behaviours; 7 certificate states incl. validity windows starting/ending at "
-        "the aggregation time) and evaluates them with the interpreter semantics proved in C05. TLC checks on all 492 800 (policy, environment) pairs: OK only if the "
+        "the aggregation time) and evaluates them with the interpreter semantics proved in C05. TLC checks on all 591 360 (policy, environment) pairs: OK only if the "
         "calendar root is bound to the anchor, FAIL only on a contradiction, broken internal verification is never OK, a missing anchor / failed extension is NA, and a "
         "bound uncontradicted signature is OK. The verdict of each pair is exported; cases of every class are realised with real bytes -- reference-built signature, really "
         "RSA-signed authentication record, publications file listing a certificate with the chosen validity window, a scripted extender on the real blocking TCP client "
